@@ -384,6 +384,48 @@ class FedSim(object):
         self.count("start")
         return rec
 
+    def ev_mkreq(self, ev, i):
+        """SP creates a logout request or an attribute query for an IdP/AA."""
+        sp = self.nodes.get(ev["sp"])
+        idp_name = ev["idp"]
+        if sp is None or idp_name not in self.truth:
+            return None
+        fl = self.flow(ev["f"])
+        fl.sp, fl.idp = ev["sp"], idp_name
+        fl.relay = "rs-%d" % ev["f"]
+        kind = ev["kind"]
+        b = ev.get("rb", "soap")
+        ep = fed.idp_endpoints(idp_name)
+        dest = ep["aa_soap"] if kind == "attribute_query" else ep["slo_" + b]
+        name_id = saml.NameID(text=ev.get("subject", "subj-%d" % ev["f"]),
+                              format=saml.NAMEID_FORMAT_PERSISTENT,
+                              sp_name_qualifier=sp.entity_id)
+        sign = bool(ev.get("sign"))
+        rec = {"sp": sp.name, "idp": idp_name, "f": ev["f"], "rb": b, "kind": kind}
+        try:
+            with self.world.on(sp.name):
+                if kind == "logout_request":
+                    reqid, req = sp.client.create_logout_request(dest, fed.idp_entity(idp_name), name_id=name_id,
+                                                                 sign=sign, sign_alg=ev.get("sigalg"),
+                                                                 digest_alg=ev.get("digalg"))
+                else:
+                    reqid, req = sp.client.create_attribute_query(dest, name_id=name_id, sign=sign,
+                                                                  sign_alg=ev.get("sigalg"),
+                                                                  digest_alg=ev.get("digalg"))
+                info = sp.client.apply_binding(BIND[b], "%s" % req, dest, fl.relay)
+        except Exception as e:
+            rec["error"] = type(e).__name__
+            self.count("mkreq.error." + type(e).__name__)
+            return rec
+        fl.reqid = reqid
+        msg = self.capture(info, b, "SAMLRequest", sp.name)
+        msg["kind"] = kind
+        msg["signed_by"] = "k%d" % sp.spec["key"] if sign else None
+        fl.request = msg
+        rec.update({"reqid": reqid, "dest": msg["dest"], "ok": True})
+        self.count("mkreq." + kind)
+        return rec
+
     def capture(self, info, binding, param, sender):
         """Read what pysaml2's apply_binding produced the way a user agent / HTTP peer would."""
         if binding == "redirect":
@@ -410,7 +452,9 @@ class FedSim(object):
         idp = self.nodes.get(to)
         if idp is None or idp.kind != "idp":
             return None
-        via = ev.get("via") or ("sso_redirect" if msg["binding"] == "redirect" else "sso_post")
+        kindmsg = msg.get("kind", "authn_request")
+        prefix = {"authn_request": "sso_", "logout_request": "slo_", "attribute_query": "aa_"}[kindmsg]
+        via = ev.get("via") or (prefix + msg["binding"])
         via_binding = "redirect" if via.endswith("redirect") else ("soap" if via.endswith("soap") else "post")
         value = msg["fields"].get("SAMLRequest")
         if value is None:
@@ -418,7 +462,7 @@ class FedSim(object):
         mutdesc = None
         if ev.get("mut"):
             value, mutdesc = mutate_value(value, msg["binding"], ev["mut"], mkrng(ev.get("sub", 0), "mut"))
-        rec = {"f": ev["f"], "to": to, "via": via, "mut": mutdesc, "kindmsg": "authn_request",
+        rec = {"f": ev["f"], "to": to, "via": via, "mut": mutdesc, "kindmsg": kindmsg,
                "msg_binding": msg["binding"], "via_binding": via_binding, "value": value,
                "signed_by": msg.get("signed_by"), "from": msg["from"],
                "now": int(self.world.clock.now(to)), "tf": ev.get("tf")}
@@ -426,11 +470,20 @@ class FedSim(object):
         n0 = len(self.world.tool.invocations)
         try:
             with self.world.on(to):
-                req = idp.server.parse_authn_request(value, BIND[via_binding])
+                if via.startswith("sso_"):
+                    req = idp.server.parse_authn_request(value, BIND[via_binding])
+                elif via.startswith("slo_"):
+                    req = idp.server.parse_logout_request(value, BIND[via_binding])
+                else:
+                    req = idp.server.parse_attribute_query(value, BIND[via_binding])
             rec["handed"] = req is not None
             rec["exc"] = None
             if req is not None:
-                fl.parsed[to] = (req, via_binding)
+                rec["handed_as"] = via.split("_")[0]
+                if via.startswith("sso_"):
+                    fl.parsed[to] = (req, via_binding)
+                else:
+                    fl.parsed_other = (to, req, via_binding)
                 rec["req_id"] = req.message.id
         except Exception as e:
             rec["handed"] = False
